@@ -932,7 +932,15 @@ class _Classification(_Algorithm):
                 if total_sections[i + 1] - section < 3:
                     raise ValueError('Each segment must have at least 3 points.')
 
-        hull_data = np.vstack((self.x, y)).T
+        # the lower hull is unchanged by shifting or positively scaling either axis, so scale both
+        # to [0, 1]; otherwise Qhull's tolerances, which are set by the largest coordinate, merge
+        # distinct points when the x- and y-values have very different magnitudes
+        y_min = y.min()
+        y_range = y.max() - y_min
+        hull_data = np.vstack((
+            (self.x - self.x_domain[0]) / (self.x_domain[1] - self.x_domain[0]),
+            (y - y_min) / y_range if y_range > 0 else y
+        )).T
         total_vertices = []
         for i, left_idx in enumerate(total_sections[:-1]):
             vertices = ConvexHull(hull_data[left_idx:total_sections[i + 1]]).vertices
